@@ -6,7 +6,7 @@ import io
 from hypothesis import strategies as st
 
 from pbt import common, gens, libside, refsem, sched
-from pbt.drive import Err, HarnessError, HypStage, Violation, import_repo, lib
+from pbt.drive import EnumStage, Err, HarnessError, HypStage, Violation, import_repo, lib
 from pbt.refsem import S, Sem
 
 ID = "C15"
@@ -17,12 +17,15 @@ RULE = (
     "holder executes; a line tracer active in dissect/cstruct/*, generated readers and generated methods counts source "
     "lines globally and hands the baton over at the scheduled steps. Stage 1 enumerates EVERY single-preemption schedule "
     "(every line step of thread 0 x every other thread) per generated definition; stage 2 draws schedules with up to 4 "
-    "preemptions. Oracle: every thread's outcome (canonical value + dumped bytes + dereferenced targets, or exception "
+    "preemptions; k1-opcode enumerates every single pre-emption at BYTECODE-INSTRUCTION granularity (sys.monitoring "
+    "INSTRUCTION events on every code object of the library and of its generated readers/methods); k2-exhaustive enumerates "
+    "EVERY two-preemption schedule 0->1->0 (thread 0 stopped before any of its line steps, thread 1 stopped before any of "
+    "its line steps, thread 0 runs to its end, thread 1 finishes) of a fixed family of definitions. Oracle: every thread's outcome (canonical value + dumped bytes + dereferenced targets, or exception "
     "class) equals its solo outcome computed first. Non-trivial = the schedule really switched inside library code and "
     "the threads' inputs differ; distinct by (definition, cfg, inputs, schedule)."
 )
 ASSUMPTIONS = [
-    "granularity is the source line (pre-emption between bytecodes of one line is not explored); this is a deterministic exploration of GIL-serialised interleavings, not a stress test",
+    "granularity is the source line except in stage k1-opcode, where it is the bytecode instruction (the finest pre-emption the GIL allows); this is a deterministic exploration of GIL-serialised interleavings, not a stress test",
     "each thread owns its stream; only type objects (and what hangs off them) are shared",
 ]
 
@@ -40,7 +43,7 @@ def conc_case(draw, with_schedule=False):
         root["fields"].insert(0, {"name": nn, "t": S("uint8"), "bits": None})
         root["fields"].append({"name": an, "t": {"k": "a", "t": S(draw(st.sampled_from(["uint8", "uint16", "char"]))), "len": ["expr", f"{nn} * 2 + 1", ["bin", "+", ["bin", "*", ["id", nn], ["lit", 2, "2"]], ["lit", 1, "1"]]]}, "bits": None})
     sem = Sem(d["defs"], cfg)
-    nthreads = draw(st.sampled_from([2, 2, 3]))
+    nthreads = 2 if with_schedule == "opcodes" else draw(st.sampled_from([2, 2, 3]))
     datas = []
     root_t = sem.res(gens.ROOT)
     ptr_keys = [refsem.fkey(f, i) for i, f in enumerate(root_t["fields"]) if sem.res(f["t"])["k"] == "p" and sem.res(sem.res(f["t"])["t"])["k"] != "p"]
@@ -69,6 +72,9 @@ def conc_case(draw, with_schedule=False):
         case["schedule_permille"] = sorted([draw(st.integers(0, 999)), draw(st.integers(0, nthreads - 1))] for _ in range(k))
     if with_schedule == "cold":
         case["cold"] = True
+        case.pop("schedule_permille", None)
+    if with_schedule == "opcodes":
+        case["opcodes"] = True
         case.pop("schedule_permille", None)
     return case
 
@@ -114,7 +120,7 @@ def run_case(case, ctx):
     desc = lambda extra=None: common.describe(dict(case, data=None), dict({"inputs": case["datas"]}, **(extra or {})))  # noqa: E731
 
     def run(preempt, record=False):
-        sc = sched.Scheduler(n, preempt, record=record)
+        sc = sched.Scheduler(n, preempt, record=record, opcodes=bool(case.get("opcodes")))
         Tr = common.load(case).Root if case.get("cold") else T  # cold: the very first use of these type objects is concurrent
         try:
             res = sc.run([_thunk(Tr, m, d) for d in datas])
@@ -131,6 +137,19 @@ def run_case(case, ctx):
                     info={"switches": [s[3] for s in sc.switches]},
                 )
 
+    if case.get("opcodes"):
+        ncode = sched.InstructionMonitor.install()
+        ctx.count("k1-opcode:instrumented-code-objects", ncode)
+        try:
+            _explore(case, ctx, run, judge, desc, T)
+        finally:
+            sched.InstructionMonitor.uninstall()
+    else:
+        _explore(case, ctx, run, judge, desc, T)
+
+
+def _explore(case, ctx, run, judge, desc, T):
+    n = len(case["datas"])
     differ = len(set(case["datas"])) > 1
     runs = 0
     switched = 0
@@ -139,7 +158,31 @@ def run_case(case, ctx):
         judge(base0, outs0, {})
         total = max(1, sum(base0.steps_of))
         case = dict(case, schedule=sorted([1 + pm * total // 1000, t] for pm, t in case["schedule_permille"]))
-    if "schedule" in case:
+    if "k2" in case:
+        # EVERY two-preemption schedule 0 -> 1 -> 0 of this definition: thread 0 is stopped before its line step s1, thread 1
+        # runs up to ITS line step s2 (any of them) and is stopped there, thread 0 runs to its end, thread 1 finishes. This
+        # case holds the s1 of one residue class (the stage enumerates all classes).
+        chunk, nchunks = case["k2"]
+        base, outs = run({})
+        judge(base, outs, {})
+        n0 = base.steps_of[0]
+        pairs = 0
+        for s1 in range(1 + chunk, n0 + 1, nchunks):
+            sc1, outs1 = run({s1: 1})
+            judge(sc1, outs1, {s1: 1})
+            n1 = sc1.steps_of[1]
+            for s2 in range(s1 + 1, s1 + n1 + 1):
+                sc2, outs2 = run({s1: 1, s2: 0})
+                judge(sc2, outs2, {s1: 1, s2: 0})
+                if len(sc2.switches) == 2:
+                    pairs += 1
+            runs += 1 + n1
+        switched = pairs
+        ctx.count("k2:line-steps-of-thread0", n0 if chunk == 0 else 0)
+        ctx.count("k2:schedules-with-both-switches", pairs)
+        if pairs and differ:
+            ctx.mark_nontrivial([case["defs"], case["cfg"], case["datas"], case["k2"]])
+    elif "schedule" in case:
         preempt = {int(s): int(t) for s, t in case["schedule"]}
         sc, outs = run(preempt)
         judge(sc, outs, preempt)
@@ -158,8 +201,8 @@ def run_case(case, ctx):
                 judge(sc, outs, {s: tgt})
                 runs += 1
                 switched += len(sc.switches)
-        ctx.count("k1-cold:line-steps-of-thread0" if case.get("cold") else "k1:line-steps-of-thread0", n0)
-        if not case.get("cold"):
+        ctx.count("k1-opcode:instruction-steps-of-thread0" if case.get("opcodes") else "k1-cold:line-steps-of-thread0" if case.get("cold") else "k1:line-steps-of-thread0", n0)
+        if not case.get("cold") and not case.get("opcodes"):
             # rendezvous: thread 0 is parked INSIDE a function, thread 1 enters the same function and is parked inside it
             # too, thread 0 continues (a save/restore discipline on shared scratch state survives every single pre-emption)
             rec, _ = run({}, record=True)
@@ -192,7 +235,53 @@ def run_case(case, ctx):
     for f in feats & {"array:expr", "bit-field", "nested-union", "nested-struct", "pointer", "array:null"}:
         ctx.count("has:" + f)
     if switched and differ:
-        ctx.sample(desc({"schedules": runs, "switched": switched}), "k1" if "schedule" not in case else "random")
+        ctx.sample(desc({"schedules": runs, "switched": switched}), "k2" if "k2" in case else "k1-opcode" if case.get("opcodes") else "k1" if "schedule" not in case else "random")
+
+
+def _sc(n):
+    return {"k": "s", "n": n}
+
+
+def _fd(name, t, bits=None):
+    return {"name": name, "t": t, "bits": bits}
+
+
+def _arr(t, ln):
+    return {"k": "a", "t": t, "len": ln}
+
+
+def _sd(name, fields, kind="struct"):
+    return {"k": "structdef", "n": name, "t": {"k": "st", "kind": kind, "name": None, "fields": fields}}
+
+
+_IDN = lambda n: ["expr", n, ["id", n]]  # noqa: E731
+_SUM = ["expr", "n + m", ["bin", "+", ["id", "n"], ["id", "m"]]]
+_CNT = ["expr", "cnt * 2 + 1", ["bin", "+", ["bin", "*", ["id", "cnt"], ["lit", 2, "2"]], ["lit", 1, "1"]]]
+
+# (name, definitions, the two threads' inputs, pointer type)
+K2_FAMILY = [
+    ("expr", [_sd("Root", [_fd("cnt", _sc("uint8")), _fd("dyn", _arr(_sc("char"), _CNT))])], ["0041000000", "01424344000000"], "uint32"),
+    ("bits", [_sd("Root", [_fd("a", _sc("uint8"), 3), _fd("b", _sc("uint8"), 5), _fd("c", _sc("uint16"), 4), _fd("d", _sc("uint16"), 12), _fd("e", _sc("uint8"))])], ["ab34127f", "5cfedc01"], "uint32"),
+    ("nested", [_sd("In", [_fd("a", _sc("uint8")), _fd("b", _sc("uint16"))]), _sd("Root", [_fd("in", {"k": "ref", "n": "In"}), _fd("n", _sc("uint8")), _fd("arr", _arr({"k": "ref", "n": "In"}, _IDN("n")))])], ["01020301040506", "0908070211121321222300"], "uint32"),
+    ("union-str", [_sd("U", [_fd("a", _sc("uint16")), _fd("b", _arr(_sc("uint8"), ["fixed", 2]))], "union"), _sd("Root", [_fd("u", {"k": "ref", "n": "U"}), _fd("s", _arr(_sc("char"), ["null"]))])], ["1234616200", "fedc78797a00"], "uint32"),
+    ("enum-ptr", [{"k": "enumdef", "n": "E", "kind": "enum", "base": "uint8", "members": [["A", 0], ["B", 1], ["C", 7]]}, _sd("Root", [_fd("e", {"k": "e", "n": "E"}), _fd("es", _arr({"k": "e", "n": "E"}, ["fixed", 2])), _fd("p", {"k": "p", "t": _sc("uint16")}), _fd("t", _sc("uint16"))])], ["0107000434120000", "07000905cdab0000"], "uint8"),
+    ("two-counts", [_sd("Root", [_fd("n", _sc("uint8")), _fd("m", _sc("uint8")), _fd("x", _arr(_sc("uint16"), _SUM)), _fd("w", _arr(_sc("wchar"), ["null"]))])], ["01010100020041000000", "0200030004004200430000 00".replace(" ", "")], "uint32"),
+]
+
+
+def k2_cases(tier):
+    q = tier == "quick"
+    fam = K2_FAMILY[:1] if q else K2_FAMILY
+    nchunks = 8 if q else 16
+
+    def gen():
+        for name, defs, datas, ptr in fam:
+            for compiled in (False, True):
+                for endian in ("<",) if q else ("<", ">"):
+                    for chunk in range(nchunks):
+                        yield {"defs": defs, "root": "Root", "cfg": {"endian": endian, "align": False, "ptr": ptr, "compiled": compiled}, "datas": list(datas), "k2": [chunk, nchunks], "family": name}
+
+    return gen
 
 
 def stages(tier):
@@ -201,4 +290,6 @@ def stages(tier):
         HypStage("k1-exhaustive", conc_case, examples=3 if q else 40, shards=8 if q else 16),
         HypStage("random-k4", lambda: conc_case(with_schedule=True), examples=200 if q else 3000, shards=4 if q else 8),
         HypStage("k1-cold", lambda: conc_case(with_schedule="cold"), examples=1 if q else 10, shards=4 if q else 8),
+        HypStage("k1-opcode", lambda: conc_case(with_schedule="opcodes"), examples=1 if q else 6, shards=4 if q else 16),
+        EnumStage("k2-exhaustive", k2_cases(tier), shards=16, scope="every two-preemption schedule 0->1->0 at source-line granularity of the fixed definition family (K2_FAMILY: %s) x both readers, two threads" % ("first member" if q else "all six members x both byte orders")),
     ]
